@@ -115,6 +115,12 @@ class FGen:
         if r < 0.75:
             return [rng.choice(["min", "max"]), self.num_expr(sc, d - 1), self.num_expr(sc, d - 1)]
         if r < 0.84:
+            if rng.random() < 0.35:
+                # a branch that is DIRECTLY a call whose arguments are plain variables / literals
+                c = ["call", "<func>sf", [self.num_leaf(sc), self.num_leaf(sc)], {}]
+                other = self.num_expr(sc, d - 1)
+                cond = ["cmp", rng.choice(["<", ">"]), self.num_leaf(sc), self.num_leaf(sc)]
+                return ["if", cond, other, c] if rng.random() < 0.6 else ["if", cond, c, other]
             return ["if", self.bool_expr(sc, d - 1), self.num_expr(sc, d - 1), self.num_expr(sc, d - 1)]
         if r < 0.9 and sc["arrs"]:
             a = rng.choice(sorted(sc["arrs"]))
@@ -196,6 +202,11 @@ class FGen:
             a, b = rng.choice(same), rng.choice(same)
             tb = ["var", a] if rng.random() < 0.6 else ["*", ["num", 0.5], ["var", a]]
             eb = ["var", b] if rng.random() < 0.6 else ["+", ["var", b], ["var", a]]
+            if rng.random() < 0.4:
+                # ... or directly a call ('k <- rhs(t, y) if c else rhs(t, u)')
+                eb = ["call", RHS_OF[tid], [["var", "<t>"], ["var", b]], {}]
+                if rng.random() < 0.5:
+                    tb = ["call", RHS_OF[tid], [["var", "<t>"], ["var", a]], {}]
             return ["if", ["cmp", rng.choice(["<", ">"]), self.num_leaf(sc), self.num_leaf(sc)], tb, eb]
         return ["/", ["var", rng.choice(same)], ["num", 2]]
 
@@ -725,10 +736,10 @@ def generate(dag, script, trace=False, module="vfmod", hooks=False, instrument=F
             freg = freg.register_codegen(hook, "fortran", f.CallCode("""
                 ! ${updated_component}
                 """))
-        kw = dict(emit_instrumentation=True, timing_function="omp_get_wtime", call_before_state_update="notify_pre_state_update",
+        kw = dict(emit_instrumentation=True, timing_function="second", call_before_state_update="notify_pre_state_update",
                   call_after_state_update="notify_post_state_update")
     elif instrument:
-        kw = dict(emit_instrumentation=True, timing_function="omp_get_wtime")
+        kw = dict(emit_instrumentation=True, timing_function="second")
     if has_struct(script):
         kw["module_preamble"] = """
             use vftypes
@@ -1022,7 +1033,7 @@ def reference_defined(script, ncalls):
     return rs, None
 
 
-def execute(script, flags=None, env=None, trace=False, valgrind=False, keep_dir=None, timeout=60):
+def execute(script, flags=None, env=None, trace=False, valgrind=False, keep_dir=None, timeout=60, instrument=False):
     obs = Obs()
     ncalls = script.get("ncalls", 3)
     rs, why = reference_defined(script, ncalls)
@@ -1037,7 +1048,7 @@ def execute(script, flags=None, env=None, trace=False, valgrind=False, keep_dir=
         obs.undefined = "interpreter-" + obs.ref[-1]["crash"][0]
         return obs
     try:
-        g = generate(dag, script, trace=trace)
+        g = generate(dag, script, trace=trace, instrument=instrument)
     except Exception as ex:      # noqa: BLE001
         import traceback
         obs.gen_error = (type(ex).__name__, str(ex)[:300], traceback.format_exc()[-1200:])
